@@ -31,6 +31,9 @@ impl TokenInner {
     pub broadcast proof fn lemma_forget(self)
         ensures #[trigger] self.forget().sid() == self.sid(), self.forget().sver() == self.sver(), self.forget().ssub() == 0,
     {}
+    pub broadcast proof fn lemma_forget_idem(self)
+        ensures #[trigger] self.forget().forget() == self.forget(),
+    {}
     pub proof fn lemma_forget_eq(a: TokenInner, b: TokenInner)
         ensures a.same_src(b) <==> a.forget() == b.forget(),
     {}
